@@ -280,8 +280,54 @@ func (w *waBuilder) collectLeaves(v ssa.Value, leaves map[string]bool, d int) bo
 			leaves[accessPath(x)] = true
 			return true
 		}
+	case *ssa.Extract:
+		// one result of a module helper every return of which gives 0 or 1 there
+		if call, ok := x.Tuple.(*ssa.Call); ok {
+			if g := call.Call.StaticCallee(); g != nil && w.smallResult(g, x.Index) {
+				leaves[w.leafName(x)] = true
+				return true
+			}
+		}
+	case *ssa.Call:
+		if g := x.Call.StaticCallee(); g != nil && w.smallResult(g, 0) {
+			leaves[w.leafName(x)] = true
+			return true
+		}
+	case *ssa.Phi:
+		for _, ed := range x.Edges {
+			if !w.smallValue(ed, x.Parent()) {
+				return false
+			}
+		}
+		leaves[w.leafName(x)] = true
+		return true
 	}
 	return false
+}
+
+func (w *waBuilder) leafName(v ssa.Value) string {
+	return "val:" + v.Parent().String() + ":" + v.Name()
+}
+
+// smallResult: every return of module function g yields 0 or 1 as result idx.
+func (w *waBuilder) smallResult(g *ssa.Function, idx int) bool {
+	if !w.P.isModuleFunc(g) || g.Blocks == nil || idx >= g.Signature.Results().Len() {
+		return false
+	}
+	key := fmt.Sprintf("result:%s#%d", g.String(), idx)
+	if v, ok := w.small[key]; ok {
+		return v
+	}
+	w.small[key] = true // assume during recursion
+	ok := true
+	for _, r := range returnsOf(g) {
+		rs := resolvedResults(r)
+		if idx >= len(rs) || !w.smallValue(rs[idx], g) {
+			ok = false
+		}
+	}
+	w.small[key] = ok
+	return ok
 }
 
 // smallParam: p is a parameter of a module function that is only ever called
@@ -372,6 +418,10 @@ func (w *waBuilder) evalWith(v ssa.Value, env map[string]int64, d int) (int64, b
 		}
 	case *ssa.UnOp, *ssa.Field, *ssa.Parameter:
 		if val, ok := env[accessPath(v)]; ok {
+			return val, true
+		}
+	case *ssa.Extract, *ssa.Call, *ssa.Phi:
+		if val, ok := env[w.leafName(v)]; ok {
 			return val, true
 		}
 	}
@@ -716,8 +766,18 @@ func (w *waBuilder) writeToken(fr *waFrame, bs ssa.Value) string {
 			return "L" // a []byte loaded from the value being written
 		}
 	case *ssa.Slice:
-		if k, ok := (Folder{w.P}).FoldInt(x.High); ok && x.Low == nil {
-			return fmt.Sprintf("B%d", k)
+		if x.High != nil {
+			if k, ok := (Folder{w.P}).FoldInt(x.High); ok && x.Low == nil {
+				return fmt.Sprintf("B%d", k)
+			}
+		}
+		// the whole of a fixed-size array viewed through a pointer: (*[N]byte)(p)[:]
+		if pt, isP := x.X.Type().Underlying().(*types.Pointer); isP && x.Low == nil && x.High == nil {
+			if at, isA := pt.Elem().Underlying().(*types.Array); isA {
+				if eb, isB := at.Elem().Underlying().(*types.Basic); isB && eb.Kind() == types.Uint8 {
+					return fmt.Sprintf("B%d", at.Len())
+				}
+			}
 		}
 	}
 	// []byte(s) conversion of a string (stripConv removed it): a string value
